@@ -363,7 +363,7 @@ GROUPS = {"ol_name_call_sites": g_ol_name_call_sites, "hygiene": g_hygiene, "res
 NO_FRAME_GROUPS = ("hygiene",)
 
 CAPTURE_PROGRAMS = {
-    "_": "_ = 5\nn = 0\nwhile n < 2:\n    n += 1\n    seen = _\nr = (_, n)\n",
+    "_": "_ = 5\nn = 0\nwhile n < 2:\n    n += 1\n    seen = _\nwhile _ > 3:\n    _ -= 1\ndef f(_):\n    k = 0\n    while _:\n        _ -= 1\n        k += 1\n    return k\nr = (_, n, f(2))\n",
     "k": "class k:\n    a = 1\n    b = 2\nr = (k.a, k.b)\n",
     "v": "v = 'keep'\nclass A:\n    x = v\n    y = 2\nr = (A.x, A.y, v)\n",
     "itertools": "itertools = 'mine'\ni = 0\nwhile i < 1:\n    i += 1\nr = itertools\n",
